@@ -159,7 +159,7 @@ PROPS = {
         kani=C20_FAMILY + ["c20_maybe_lock_granted", "c20_maybe_lock_unsupported", "c20_maybe_lock_refused", "c20_file_lock_new",
                            "c20_maybe_lock_after_unsupported_refused", "c20_maybe_lock_after_refused_granted",
                            "c20_maybe_lock_after_granted_refused"],
-        verus=[],
+        verus=["run_dedupe_dispatch"],
         prefixes=["C20."],
         category="proof",
         trust=GHOST_FS_TRUST,
@@ -211,7 +211,7 @@ PROPS = {
     ),
     "C07": dict(
         kani=["c07_transform_frame", "c07_are_on_same_mount_is_pure", "c07_dedupe_script_is_pure_bounded"],
-        verus=[],
+        verus=["run_dedupe_dispatch"],
         prefixes=["C07.", "C01.transform_tmp."],
         category="proof",
         trust=["A1 verifiers: Kani 0.68 / CBMC 6.11, rustc",
